@@ -4,7 +4,8 @@
 (* adminServiceProxyServer.StreamWorkflowReplicationMessages did behind a  *)
 (* real grpc.Server (trace.ndjson, harness zz_verif_streamobs_test.go).    *)
 (* One probe = a fresh ClusterConnection, then                             *)
-(*   a well-formed stream that is held open (Hold),                        *)
+(*   two well-formed streams that are held open (Hold; Hold2 on a shard id *)
+(*   beyond the observer's initial capacity),                              *)
 (*   Open(header under test) -> Result,                                    *)
 (*   a well-formed stream opened afterwards (FollowUp) that must be served *)
 (*   within FollowBoundMs, the observer's PrintActiveStreams while Hold    *)
@@ -61,7 +62,8 @@ Observed(r, f) ==
 OnFollowUp(e) ==
   LET c == inp[e.id]  r == res[e.id]
       served == e.follow = "served" /\ e.ms <= FollowBoundMs
-      want == IF e.holdId < e.followId THEN <<e.holdId, e.followId>> ELSE <<e.followId, e.holdId>>
+      \* the two held streams (one of them beyond the initial capacity) and the follow-up, ascending
+      want == IF e.holdId < e.followId THEN <<e.holdId, e.followId, e.hold2Id>> ELSE <<e.followId, e.holdId, e.hold2Id>>
       obs == Observed(r, e)
   IN /\ UNCHANGED <<inp, res>>
      /\ Flag(Bad(e.id, served /\ e.followEnd = "ok" /\ e.holdEnd = "ok", "followup") \cup
